@@ -13,7 +13,13 @@ def derived_events(ctx, o, case):
     if sites[0] != "ok" or not isinstance(sites[1], list) or any(not isinstance(x, int) or isinstance(x, bool) for x in sites[1]):
         ctx.violation("phosphosites-reply", case, expected="a list of integers", actual=sites)
         return None
-    s = sites[1]
+    s = list(sites[1])
+    # the caller owns the returned list: scribbling on it must not reach the object
+    objmodel.scribble(sites[1])
+    again = common.call(o.get_phosphosites)
+    if again[0] != "ok" or again[1] != s:
+        ctx.violation("phosphosites-reply", case, expected=s, actual=again)
+        return None
     ev = []
     ps = common.call(o.get_phosphosequence)
     if ps[0] != "ok" or not isinstance(ps[1], str):
